@@ -387,17 +387,21 @@ theorem sendLoop_ok {first : Nat} {log : List Entry} (hne : log ≠ []) (h : Idx
         rcases hcase with ⟨e, _, _, hiter⟩ | hiter
         · rw [hiter]
           simp only [hpb]
-          by_cases hp : pb = true
-          · simp only [hp, if_true]; exact ⟨_, rfl⟩
-          · simp only [hp]
-            by_cases hb : budgetDone budget = true
-            · simp only [hb, if_true]; exact ⟨_, rfl⟩
-            · simp only [hb]
-              rw [hnx]
-              obtain ⟨r, hr⟩ := ih (p + (takeBytes c.B 0 (log.drop p)).length) false (budgetNext budget)
-                (sendBurst c.dropAfter sent (render c.B c.term c.commit (Batch.chunked (some (first + p - 1, pe.term)) e))).2
-                true (by omega) hle (Or.inl rfl)
-              simp only [hr]; exact ⟨_, rfl⟩
+          by_cases hcb : (!stillConnected c.dropAfter
+              (sendBurst c.dropAfter sent (render c.B c.term c.commit (Batch.chunked (some (first + p - 1, pe.term)) e))).2) = true
+          · simp only [hcb, if_true]; exact ⟨_, rfl⟩
+          · simp only [hcb]
+            by_cases hp : pb = true
+            · simp only [hp, if_true]; exact ⟨_, rfl⟩
+            · simp only [hp]
+              by_cases hb : budgetDone budget = true
+              · simp only [hb, if_true]; exact ⟨_, rfl⟩
+              · simp only [hb]
+                rw [hnx]
+                obtain ⟨r, hr⟩ := ih (p + (takeBytes c.B 0 (log.drop p)).length) false (budgetNext budget)
+                  (sendBurst c.dropAfter sent (render c.B c.term c.commit (Batch.chunked (some (first + p - 1, pe.term)) e))).2
+                  true (by omega) hle (Or.inl rfl)
+                simp only [hr]; exact ⟨_, rfl⟩
         · rw [hiter]
           simp only [hpb]
           by_cases hcn : (!stillConnected c.dropAfter (sent + 1)) = true
